@@ -339,29 +339,6 @@ def _line(spans, d, h):
     return line
 
 
-def pump_order_mismatch(el):
-    """input class of the finding `raman-pump-order`: a RamanFiber whose pump list names a counter-propagating pump before
-    a co-propagating one (the Raman solver stores co-propagating pumps first, the spontaneous-ASE loop uses list order)"""
-    pumps = getattr(el, 'raman_pumps', None) or []
-    dirs = [p.propagation_direction for p in pumps]
-    return 'coprop' in dirs and 'counterprop' in dirs[:len(dirs) - 1 - dirs[::-1].index('coprop')]
-
-
-def classify_raman_pump_order(res, rec):
-    """failures of a case in which such a fibre was handed a negative ASE power belong to the finding class
-    `raman-pump-order` (the wrong ASE contaminates every later element of the path)"""
-    hit = False
-    for call in rec.calls:
-        if call.kind == 'RamanFiber' and pump_order_mismatch(call.el):
-            if any(kind == 'addAse' and np.any(arg < 0) for kind, _, arg in call.ops):
-                hit = True
-    if hit:
-        for f in res.failures:
-            f['cls'] = 'raman-pump-order'
-        res.stats['finding_raman_pump_order_cases'] += 1
-    return hit
-
-
 def dispersion_params(disp):
     """Fiber params of a normal-dispersion (D < 0) span: single value, per-frequency table, or value + slope that is
     negative over the whole C+L range"""
